@@ -149,9 +149,20 @@ def table_of(m):
 
 def run_unary(case):
     A = fsm.ops_from_json(case["A"])
-    W = fsm.poly_weights(len(A))
+    r = _run_unary(case, A, fsm.poly_weights(len(A)), "all-indeterminate")
+    if sum(1 for o in A if o[0] == "A") >= 1:
+        # spend the degree budget on arcs: initial weights are one (final weights stay
+        # indeterminate so that star(A) converges when A accepts the empty string)
+        r2 = _run_unary(case, A, fsm.arc_weights(A), "unit-initial")
+        r["evals"] += r2["evals"]
+        r["fails"] += r2["fails"]
+        r["counters"]["executions"] += r2["counters"]["executions"]
+    return r
+
+
+def _run_unary(case, A, W, wname):
     tA = clean(paths(fsm.data(A, W)))
-    inp0 = {"A": case["A"]}
+    inp0 = {"A": case["A"], "weights": wname}
     fails = []
     evals = 0
 
@@ -193,8 +204,12 @@ def run_unary(case):
 def run_binary(case):
     A = fsm.ops_from_json(case["A"])
     B = fsm.ops_from_json(case["B"])
-    WA = fsm.poly_weights(len(A))
-    WB = fsm.poly_weights(len(B), offset=len(A))
+    if sum(1 for o in A + B if o[0] == "A") >= 2:
+        WA = fsm.arc_weights(A)
+        WB = fsm.arc_weights(B, offset=len(A))
+    else:
+        WA = fsm.poly_weights(len(A))
+        WB = fsm.poly_weights(len(B), offset=len(A))
     tA = clean(paths(fsm.data(A, WA)))
     tB = clean(paths(fsm.data(B, WB)))
     inp0 = {"A": case["A"], "B": case["B"]}
@@ -218,6 +233,22 @@ def run_binary(case):
         evals += 1
         if have != clean(want):
             fails.append(_fail(f"{name} == defining sum", dict(inp0, expr=name), have, clean(want)))
+    # state-naming configurations: names that look like the keys used internally to
+    # rename operands apart ((0, q) / (1, q)), and operands sharing state names
+    if len(A) + len(B) <= 7:
+        namings = [
+            ({q: (1, q) for q in range(3)}, None),
+            (None, {q: (0, q) for q in range(3)}),
+            ({q: (1, q) for q in range(3)}, {q: (0, q) for q in range(3)}),
+            ({q: (0, (1, q)) for q in range(3)}, {q: (1, q) for q in range(3)}),
+        ]
+        for na, nb in namings:
+            for name, f, want in exprs[:2]:
+                res = _call(lambda: f(fsm.build(base.WFSA, Poly, A, WA, names=na), fsm.build(base.WFSA, Poly, B, WB, names=nb)))
+                have = table_of(res)
+                evals += 1
+                if have != clean(want):
+                    fails.append(_fail(f"{name} == defining sum (any state names)", dict(inp0, expr=name, namesA=short(na), namesB=short(nb)), have, clean(want)))
     # field WFSA with exact rational weights (Float.star(0) is a float, so compare numerically)
     if len(A) + len(B) <= 8:
         FA = [fsm.FRAC[i % 8] for i in range(len(A))]
